@@ -64,31 +64,33 @@ fn filter_map<const N: usize, const BORROWED: bool>() {
 }
 
 #[kani::proof]
-#[kani::unwind(6)]
+#[kani::stub(std::mem::drop, crate::lhs_types::verif_kani::common::mem_drop__releases_nothing_observable)]
+#[kani::unwind(3)]
 fn array_filter_map_to__owned_n2() {
     filter_map::<2, false>()
 }
 
 #[kani::proof]
-#[kani::unwind(6)]
+#[kani::unwind(3)]
 fn array_filter_map_to__borrowed_n2() {
     filter_map::<2, true>()
 }
 
 #[kani::proof]
-#[kani::unwind(7)]
+#[kani::stub(std::mem::drop, crate::lhs_types::verif_kani::common::mem_drop__releases_nothing_observable)]
+#[kani::unwind(4)]
 fn array_filter_map_to__owned_n3() {
     filter_map::<3, false>()
 }
 
 #[kani::proof]
-#[kani::unwind(7)]
+#[kani::unwind(4)]
 fn array_filter_map_to__borrowed_n3() {
     filter_map::<3, true>()
 }
 
 #[kani::proof]
-#[kani::unwind(4)]
+#[kani::unwind(2)]
 fn array_filter_map_to__owned_n0() {
     filter_map::<0, false>()
 }
